@@ -83,6 +83,15 @@ TEXT = {
             "on the real SessionBuilder, returned sessions are exercised under catch_unwind; run-time misuse calls carry "
             "their documented result as expectation judged by the TLA+ monitor, Trace_Twin.tla shows the behaviour is "
             "unchanged.", "DESIGN.md section 3 C16"),
+    "C17": ("The specification is deterministic in (API calls, packets per link, clock) and iterates handles/endpoints in "
+            "ascending order; every plan and TLC-generated schedule is executed several times in one process (fresh hash "
+            "states, nonces, magics) and Trace_Rep.tla demands identical request lists, states and per-address event "
+            "sequences across the repetitions; Trace_Sys conformance of the same schedules shows each run is THE "
+            "behaviour of the specification.", "DESIGN.md section 3 C17"),
+    "C18": ("Buffer bounds as TLA+ predicates over the sizes read through the hook after every call (Monitor.tla BufViol), "
+            "evaluated by TLC on long real runs (3000-20000 frames) of all topologies, all-local sessions, never-drained "
+            "sessions and dying spectators; the link model's history bound is an invariant of MC_Link.",
+            "DESIGN.md section 3 C18"),
 }
 
 NOTE = ("Trusted: TLC 1.8.0 + CommunityModules, the harness projection (world.rs) and virtual clock shim, the "
